@@ -59,6 +59,71 @@ def _function_at(ctx: Ctx, index, loc: str):
     return best
 
 
+def _mangle(cls_name: str, attr: str) -> str:
+    if attr.startswith("__") and not attr.endswith("__"):
+        return "_%s%s" % (cls_name.lstrip("_"), attr)
+    return attr
+
+
+def _class_attr_check(ctx: Ctx, rep: Report, rid: str, classes):
+    """Every `self.X` a class reads is assigned somewhere in the class or its analysed bases (or is a method / property / class attribute):
+    deleting the only initialisation (`self.children = {}`) cannot go unnoticed.  Classes with bases outside the program, with
+    __getattr__/__getattribute__, or that write through setattr(self, ...)/self.__dict__ are skipped (their attribute set is open)."""
+    for c in classes:
+        chain = [k for k in c.mro] or [c]
+        # subclasses may define what a base reads (template methods): include them
+        fam = list(chain)
+        for k in c.all_subclasses() if hasattr(c, "all_subclasses") else []:
+            if k not in fam:
+                fam.append(k)
+        open_set = False
+        for k in chain:
+            if [b for b in k.ext_bases if b.split(".")[-1] not in ("object", "ABC", "Generic", "Protocol")]:
+                open_set = True
+            if k.lookup("__getattr__") or k.lookup("__getattribute__"):
+                open_set = True
+        defined = set()
+        methods = []
+        for k in fam:
+            defined |= set(k.methods) | set(k.getters) | set(k.setters) | set(k.class_attrs)
+            defined |= {a for a, v in getattr(k, "class_ann", {}).items() if a in k.class_attrs}
+            methods += list(k.methods.values()) + list(k.getters.values()) + list(k.setters.values())
+        for m in methods:
+            sn = getattr(m, "self_name", None)
+            if not sn or isinstance(m.node, ast.Lambda):
+                continue
+            for x in ctx.own_nodes(m):
+                if isinstance(x, ast.Attribute) and isinstance(x.value, ast.Name) and x.value.id == sn and isinstance(x.ctx, (ast.Store,)):
+                    defined.add(_mangle(m.cls.name if m.cls else c.name, x.attr))
+                if isinstance(x, ast.Call) and isinstance(x.func, ast.Name) and x.func.id in ("setattr", "delattr") and x.args and isinstance(x.args[0], ast.Name) and x.args[0].id == sn:
+                    open_set = True
+                if isinstance(x, ast.Attribute) and x.attr == "__dict__" and isinstance(x.value, ast.Name) and x.value.id == sn:
+                    open_set = True
+        if open_set:
+            continue
+        seen = set()
+        for m in [mm for k in chain for mm in list(k.methods.values()) + list(k.getters.values()) + list(k.setters.values())]:
+            sn = getattr(m, "self_name", None)
+            if not sn or isinstance(m.node, ast.Lambda) or m.kind in ("static", "class"):
+                continue
+            for x in ctx.own_nodes(m):
+                if isinstance(x, ast.Attribute) and isinstance(x.value, ast.Name) and x.value.id == sn and isinstance(x.ctx, ast.Load):
+                    nm = _mangle(m.cls.name if m.cls else c.name, x.attr)
+                    if nm in defined or x.attr in defined or nm.startswith("__") and nm.endswith("__") or nm in seen:
+                        continue
+                    seen.add(nm)
+                    rep.violation(rid, "%s|self.%s" % (short(c.qname), x.attr), ctx.line(m, x),
+                                  "`self.%s` is read in %s but no method of %s (or of its bases / subclasses) assigns it and it is no method, property or class attribute: "
+                                  "AttributeError at run time" % (x.attr, short(m.qname), c.name), func=m.qname)
+        if not seen:
+            rep.ok(rid, "%s|attributes" % short(c.qname), c.methods.get("__init__") or next(iter(c.methods.values())), "every self attribute read is assigned somewhere", nontrivial=False)
+
+
+def anchored_functions(rep: Report):
+    """qualified names of the functions apply() analysed for this report (recorded there)."""
+    return list(rep.extra.get("anchored_functions", []))
+
+
 def apply(ctx: Ctx, rep: Report):
     rid = "%s.DA" % rep.prop
     index: Dict[str, List] = {}
@@ -76,6 +141,7 @@ def apply(ctx: Ctx, rep: Report):
             continue
         for h in with_private_helpers(ctx, f):
             funcs[h.qname] = h
+    rep.extra["anchored_functions"] = sorted(funcs)
     rep.rule(rid, "definite assignment: in every function this property's rules anchor in (%d today), no local can be read before it is assigned - a deleted / "
              "mis-scoped definition cannot leave the other rules satisfied while the step dies with UnboundLocalError" % len(funcs), expect_min=1)
     for q in sorted(funcs):
@@ -85,7 +151,10 @@ def apply(ctx: Ctx, rep: Report):
         for x in ctx.own_nodes(f):
             if isinstance(x, (ast.Global, ast.Nonlocal)):
                 gl |= set(x.names)
-        bad = defassign.undefined_uses(g, set(f.all_param_names()), set(), gl)
+        cache = ctx.__dict__.setdefault("_da_cache", {})
+        if q not in cache:
+            cache[q] = defassign.undefined_uses(g, set(f.all_param_names()), set(), gl)
+        bad = cache[q]
         sq = short(q)
         key_f = ".".join(q.split(".")[-2:])
         n_bad = 0
@@ -118,9 +187,17 @@ def apply(ctx: Ctx, rep: Report):
                     for n_ in ctx.cfg(p).nodes:
                         known |= defassign.assigned_in(n_)
                     p = p.parent
-            for name, node in defassign.unknown_names(g, known):
+            ucache = ctx.__dict__.setdefault("_da_ucache", {})
+            if q not in ucache:
+                ucache[q] = defassign.unknown_names(g, known)
+            for name, node in ucache[q]:
                 n_bad += 1
                 rep.violation(rid, "%s|%s" % (sq, name), ctx.line(f, node.ast) if node.ast is not None else f.loc(),
                               "`%s` is read in %s but bound nowhere (no local, parameter, module-level name or builtin of that name): NameError at run time" % (name, sq), func=q)
         if not n_bad:
             rep.ok(rid, sq, f, "all locals definitely assigned before use", nontrivial=False)
+    classes = []
+    for f in funcs.values():
+        if f.cls is not None and f.cls not in classes and f.cls.outer_func is None:
+            classes.append(f.cls)
+    _class_attr_check(ctx, rep, rid, classes)
